@@ -196,6 +196,20 @@ def run_cases(ctx, lookups, plays):
     traces = [t for o in outs for t in o['traces']]
     if len(traces) != len(lookups) + len(plays):
         raise MachineryError('driver returned %d traces for %d cases' % (len(traces), len(lookups) + len(plays)))
+    # a watchdog timeout may be the machine's load rather than the code: such plays are repeated alone with a
+    # generous limit; only a play that still does not finish is recorded as not terminating
+    late = [t['id'] for t in traces if t['kind'] == 'play' and t['exc'] == 'timeout']
+    if late:
+        byid = {p['id']: p for p in plays}
+        again = {}
+        for i in late[:3]:
+            o = ctx.run_driver(DRIVER, dict(lookups=[], plays=[byid[i]], timeout=60.0), mode='nrt')
+            again[i] = o['traces'][0]
+        if late[3:] and all(t['exc'] != 'timeout' for t in again.values()):      # it was the load: repeat the rest too
+            o = ctx.run_driver(DRIVER, dict(lookups=[], plays=[byid[i] for i in late[3:]], timeout=60.0), mode='nrt', timeout=3600)
+            again.update({t['id']: t for t in o['traces']})
+        traces = [again.get(t['id'], t) for t in traces]
+        ctx.cov['plays_repeated_after_watchdog'] = ctx.cov.get('plays_repeated_after_watchdog', 0) + len(again)
     return traces
 
 
